@@ -9,6 +9,7 @@ from psa import model
 from psa.gates import Interp, parse_version, UNK
 from psa.model import own_nodes, own_nodes_of, src, Ref, Unknown
 from psa.rules import common as C
+from psa.rules import c05
 
 EXPLANATION = (
     "Exhaustive over 40 microversions x 37 route/method pairs by abstract "
@@ -722,14 +723,33 @@ def r145(ctx, R):
     fm = prog.func('placement.microversion:_find_method')
     cmpn = [c for c in own_nodes(fm.node) if isinstance(c, ast.Compare)
             and len(c.ops) == 2]
-    okf = len(cmpn) == 1 and all(isinstance(o, ast.LtE)
-                                 for o in cmpn[0].ops) and [
-        src(cmpn[0].left), src(cmpn[0].comparators[0]),
-        src(cmpn[0].comparators[1])] == ['min_version', 'version',
-                                         'max_version']
+    okf = False
+    ps = fm.params
+    if len(cmpn) == 1 and len(ps) >= 3 and all(
+            isinstance(o, ast.LtE) for o in cmpn[0].ops):
+        c0 = cmpn[0]
+        iff = getattr(c0, '_parent', None)
+        lp = getattr(iff, '_parent', None)
+        if isinstance(iff, ast.If) and iff.test is c0 and isinstance(
+                lp, ast.For) and isinstance(lp.target, ast.Tuple) and len(
+                    lp.target.elts) == 3:
+            lo, hi, fn = [src(x) for x in lp.target.elts]
+            okf = [src(c0.left), src(c0.comparators[0]),
+                   src(c0.comparators[1])] == [lo, ps[1], hi]
+            # the matching entry's function is what is returned
+            okf = okf and len(iff.body) == 1 and isinstance(
+                iff.body[0], ast.Return) and src(iff.body[0].value) == fn \
+                and not iff.orelse
+            # the list walked is this name's registration list
+            it = lp.iter
+            if isinstance(it, ast.Name):
+                dd = c05.single_def(fm, it.id)
+                it = dd.value if dd is not None else it
+            okf = okf and 'VERSIONED_METHODS' in src(it) and ps[0] in \
+                C.names_in(it)
     rs = [r for r in own_nodes(fm.node) if isinstance(r, ast.Raise)]
-    okf = okf and len(rs) == 1 and 'status_map[status_code]' in src(
-        rs[0].exc)
+    okf = okf and len(rs) == 1 and len(ps) >= 3 and src(rs[0].exc).replace(
+        'webob.exc.', '') == 'status_map[%s]' % ps[2]
     R.ob('R14.5', '_find_method', okf,
          'a versioned handler runs iff min <= version <= max, otherwise the '
          'declared status is raised', [src(c) for c in cmpn], func=fm)
